@@ -183,35 +183,67 @@ func rulesC20(c *Ctx) {
 				}
 				return false
 			}
-			if phi, isPhi := v.(*ssa.Phi); isPhi {
-				ok = true
-				for i, e := range phi.Edges {
-					if isNilConst(e) {
-						continue
-					}
-					pred := phi.Block().Preds[i]
-					onEdge := false
-					if iff := lastIf(pred); iff != nil {
-						// the condition holding on the edge pred→phi block itself
-						for si, sb := range pred.Succs {
-							if sb == phi.Block() && matchEither(eqRe, normCond(iff.Cond, si == 0)) {
-								onEdge = true
+			// value(v, at): v, used at instruction at, is nil or the sender heap's head under head.seq == seqHeap.seq.
+			// A value produced by a new helper (ip.go) is judged at the helper's returns.
+			var value func(v ssa.Value, at ssa.Instruction, d int) (bool, string)
+			value = func(v ssa.Value, at ssa.Instruction, d int) (bool, string) {
+				if isNilConst(v) {
+					return true, ""
+				}
+				if d > 4 {
+					return false, "value too deep to follow"
+				}
+				if phi, isPhi := v.(*ssa.Phi); isPhi {
+					for i, e := range phi.Edges {
+						if isNilConst(e) {
+							continue
+						}
+						pred := phi.Block().Preds[i]
+						onEdge := false
+						if iff := lastIf(pred); iff != nil {
+							// the condition holding on the edge pred→phi block itself
+							for si, sb := range pred.Succs {
+								if sb == phi.Block() && matchEither(eqRe, normCond(iff.Cond, si == 0)) {
+									onEdge = true
+								}
 							}
 						}
+						if !onEdge && (len(pred.Instrs) == 0 || !held(pred.Instrs[len(pred.Instrs)-1])) {
+							if cl, isCall := e.(*ssa.Call); !isCall || helperCallee(cl) == nil {
+								return false, "the non-nil value " + vstrShort(e) + " reaches it from a block where `head.seq == seqHeap.seq` does not hold"
+							}
+						}
+						if cl, isCall := e.(*ssa.Call); isCall && helperCallee(cl) != nil {
+							if ok, why := value(e, cl, d+1); !ok {
+								return false, why
+							}
+							continue
+						}
+						if !strings.Contains(vstr(e), "(*senderTxHeap).peek(") {
+							return false, "the value is not the sender heap's head"
+						}
 					}
-					if !onEdge && (len(pred.Instrs) == 0 || !held(pred.Instrs[len(pred.Instrs)-1])) {
-						ok = false
-						why = "the non-nil value " + vstrShort(e) + " reaches it from a block where `head.seq == seqHeap.seq` does not hold"
-					}
-					if !strings.Contains(vstr(e), "(*senderTxHeap).peek(") {
-						ok = false
-						why = "the value is not the sender heap's head"
+					return true, ""
+				}
+				if cl, isCall := v.(*ssa.Call); isCall {
+					if h := helperCallee(cl); h != nil && h.Signature.Results().Len() == 1 {
+						for _, r := range Returns(h) {
+							if len(r.Results) != 1 {
+								return false, "helper result not followed"
+							}
+							if ok, why := value(r.Results[0], r, d+1); !ok {
+								return false, why
+							}
+						}
+						return true, ""
 					}
 				}
-			} else {
-				ok = held(call) && strings.Contains(vstr(v), "(*senderTxHeap).peek(")
-				why = "not dominated by `head.seq == seqHeap.seq`"
+				if held(at) && strings.Contains(vstr(v), "(*senderTxHeap).peek(") {
+					return true, ""
+				}
+				return false, "not dominated by `head.seq == seqHeap.seq`"
 			}
+			ok, why = value(v, call, 0)
 			c.Check(ok, "C20.ready", fname(fn)+":"+nm[len(pkTxpool)+1:]+"(head) only if head.seq == sender's current sequence", c.P.InstrPos(call), "the transaction restored into the max heap is the sender's head and only when its sequence equals the sender's current sequence", "a transaction can be restored into the max heap although it is not the sender's current-sequence transaction ("+why+"): it would be scheduled across a sequence gap")
 		}
 		c.Floor("C20.ready", n, 2, "max-heap insertions in restoreMaxHeap")
